@@ -77,6 +77,7 @@ func RunSimCheck(run *harness.Run, sc *SimCheck) int {
 	scheds := map[[32]byte]bool{}
 	states := map[[16]byte]bool{}
 	var violCases []int
+	otherFirst := map[string]int{} // first case in which a rule of another property fired (development aid, see evidence)
 	unlistedCases := 0
 	known := harness.LoadKnown()
 	violByCase := map[int][]Violation{}
@@ -111,6 +112,8 @@ func RunSimCheck(run *harness.Run, sc *SimCheck) int {
 				for _, v := range r.Viol {
 					if v.Prop == sc.Prop {
 						mine = append(mine, v)
+					} else if _, ok := otherFirst[v.Prop+"/"+v.Rule]; !ok {
+						otherFirst[v.Prop+"/"+v.Rule] = i
 					}
 				}
 				if len(mine) > 0 {
@@ -231,6 +234,7 @@ func RunSimCheck(run *harness.Run, sc *SimCheck) int {
 	}
 	if len(other) > 0 {
 		cov["violations_of_other_properties_seen_(reported_by_their_own_checks)"] = other
+		cov["first_case_of_each_of_those"] = otherFirst
 	}
 	var inconclusive []string
 	for k, min := range sc.Floors {
